@@ -520,3 +520,176 @@ class E7Heap(ScriptEngine):
                     message=f"live list/str data is constant ({per_pass[1]} items) but the firmware's heap is not: bytes after each pass {heaps}",
                 )
         return None
+
+
+_MEANINGLESS = re.compile(
+    r"""^(?:
+        (?:from\s+[\w.\s]+?\s+)?import\s+.+   # imports
+      | target\s*\(.*\)                        # the target() call
+      | [A-Za-z_]\w*\s*=\s*target\s*\(.*\)    # cpp = target(...)
+      | pass
+      | global\s+.+
+      | \#.*                                   # comment
+      | print\s*\(.*\)                         # host-only print
+    )$""",
+    re.X,
+)
+
+
+def _is_docstring(text: str) -> bool:
+    try:
+        node = ast.parse(text, mode="eval").body
+    except SyntaxError:
+        return False
+    return isinstance(node, ast.Constant) and isinstance(node.value, str)
+
+
+def ignored_lines_of(script: str):
+    """Transpile with the REDUINO_VERIF hook on; returns (cpp or exception, ignored entries)."""
+
+    import os
+
+    import Reduino.transpile.parser as parser_mod
+
+    log = getattr(parser_mod, "_VERIF_IGNORED_LINES", None)
+    if log is None:
+        raise RuntimeError("the REDUINO_VERIF hook is missing from Reduino.transpile.parser")
+    old = os.environ.get("REDUINO_VERIF")
+    os.environ["REDUINO_VERIF"] = "1"
+    del log[:]
+    try:
+        try:
+            result = transpile(script)
+        except Exception as exc:  # noqa: BLE001
+            result = exc
+        entries = list(log)
+    finally:
+        del log[:]
+        if old is None:
+            os.environ.pop("REDUINO_VERIF", None)
+        else:
+            os.environ["REDUINO_VERIF"] = old
+    return result, entries
+
+
+def judge_ignored(entries) -> Optional[str]:
+    for scope, depth, text, reason in entries:
+        stripped = text.strip()
+        if _MEANINGLESS.match(stripped) or _is_docstring(stripped):
+            continue
+        return f"line {stripped!r} ({scope}, depth {depth}) was skipped without a diagnostic (reason: {reason})"
+    return None
+
+
+class E1Layout(ScriptEngine):
+    """C07: meaning-preserving re-layouts and the ignored-line log."""
+
+    name = "e1-layout"
+    property_id = "C07"
+    rule = (
+        "core-language and actuator programs rendered through a seeded layout (comment lines at any column, "
+        "trailing comments incl. on block headers, blank lines, per-block indent unit 1-8 or tabs, trailing "
+        "whitespace, optional spaces around tokens); each variant is first validated against CPython's own ast; "
+        "checks: firmware text byte-identical to the original's, board(variant) refines host(original), and every "
+        "entry of the REDUINO_VERIF ignored-line log belongs to the fixed set of meaningless lines; non-trivial = "
+        "variant differs from the original text; distinct = digest of the variant"
+    )
+    components_real = ScriptEngine.components_real + ["REDUINO_VERIF hook: Reduino.transpile.parser._VERIF_IGNORED_LINES"]
+
+    def generate(self, rng, tier: str, avoid) -> dict:
+        from dst.gen.actuators import ActGen
+        from dst.gen.layout import relayout, same_python
+        from dst.gen.programs import GenOptions, ProgGen, random_world
+
+        if rng.random() < 0.8:
+            opts = GenOptions(max_stmts=rng.choice([6, 12, 20]), max_depth=rng.choice([1, 2, 3]))
+            original = ProgGen(rng, avoid, opts).generate()
+            duty = []
+        else:
+            g = ActGen(rng, avoid, tier)
+            original = g.generate()
+            duty = g.duty_pins
+        if rng.random() < 0.3:
+            original = original.replace('mon = SerialMonitor(9600, "COM3")\n', 'mon = SerialMonitor(9600, "COM3")\n"""docstring-like note"""\nprint("host only")\n', 1)
+        variant, used = original, []
+        for _ in range(6):
+            cand, feats = relayout(rng, original, avoid)
+            if same_python(original, cand):
+                variant, used = cand, feats
+                break
+        worlds = [random_world(rng, original, rng.choice([0, 1, 2, 3])) for _ in range(2)]
+        return {"script": variant, "host_script": original, "worlds": worlds, "layout_features": used, "duty_pins": duty}
+
+    def duty_tol(self, case: dict):
+        return {f"pin:{p}": 1 for p in case.get("duty_pins", [])}
+
+    def execute(self, case: dict) -> Outcome:
+        original, variant = case["host_script"], case["script"]
+        res_o, ign_o = ignored_lines_of(original)
+        res_v, ign_v = ignored_lines_of(variant)
+        for entries in (ign_o, ign_v):
+            msg = judge_ignored(entries)
+            if msg:
+                return Outcome("violation", cls="line-dropped", message=msg)
+        if isinstance(res_o, Exception) != isinstance(res_v, Exception):
+            bad = res_v if isinstance(res_v, Exception) else res_o
+            which = "re-laid-out variant" if isinstance(res_v, Exception) else "original"
+            return Outcome("violation", cls="layout-changes-acceptance", message=f"only the {which} is rejected: {type(bad).__name__}: {bad}"[:300])
+        if not isinstance(res_o, Exception) and res_o != res_v:
+            a, b = res_o.splitlines(), res_v.splitlines()
+            k = next((i for i, (x, y) in enumerate(zip(a, b)) if x != y), min(len(a), len(b)))
+            return Outcome(
+                "violation",
+                cls="layout-changes-output",
+                message=f"firmware differs at line {k}: original {a[k] if k < len(a) else '<end>'!r} / variant {b[k] if k < len(b) else '<end>'!r}",
+            )
+        out = super().execute(case)
+        if out.status == "ok":
+            out.nontrivial = out.nontrivial and variant != original
+            out.probes.update({f"layout:{f}": 1 for f in case.get("layout_features", [])})
+        return out
+
+    def shrink_candidates(self, case: dict):
+        # shrink the original, re-apply nothing: the variant is reduced line by line in lockstep where possible
+        vlines = case["script"].splitlines()
+        for i in range(len(vlines) - 1, -1, -1):
+            stripped = vlines[i].strip()
+            if not stripped or stripped.startswith("#"):
+                c = copy.deepcopy(case)
+                c["script"] = "\n".join(vlines[:i] + vlines[i + 1 :]) + "\n"
+                from dst.gen.layout import same_python
+
+                if same_python(case["host_script"], c["script"]):
+                    yield c
+        olines = case["host_script"].splitlines()
+        for i in range(len(olines) - 1, -1, -1):
+            if not olines[i].strip():
+                continue
+            target_line = olines[i].strip()
+            # drop the same statement (and its block) from both texts
+            def drop(lines, pred):
+                for j, l in enumerate(lines):
+                    if pred(l):
+                        base = len(l) - len(l.lstrip())
+                        k = j + 1
+                        while k < len(lines) and (not lines[k].strip() or lines[k].lstrip().startswith("#") or len(lines[k]) - len(lines[k].lstrip()) > base):
+                            k += 1
+                        return lines[:j] + lines[k:]
+                return None
+
+            import tokenize as _tk
+
+            def norm(text):
+                return re.sub(r"\s+", "", text.split("  #")[0])
+
+            o2 = drop(olines, lambda l: l.strip() == target_line)
+            v2 = drop(vlines, lambda l: norm(l.strip()).startswith(norm(target_line)))
+            if o2 is None or v2 is None:
+                continue
+            c = copy.deepcopy(case)
+            c["host_script"] = "\n".join(o2) + "\n"
+            c["script"] = "\n".join(v2) + "\n"
+            from dst.gen.layout import same_python
+
+            if same_python(c["host_script"], c["script"]):
+                yield c
